@@ -383,23 +383,34 @@ func (t *transpiler) charClass(node *ast.CharClassNode) {
 		internalNodes = append(internalNodes, element)
 	}
 	if len(nodesToSplit) > 0 {
-		t.Buffer.WriteString(`(?:[`)
-	} else {
+		t.Buffer.WriteString(`(?:`)
+	}
+	// Go reads a `]` that directly follows `[` or `[^` as a literal,
+	// so a class without elements cannot be written as `[]` or `[^]`
+	if len(internalNodes) > 0 {
 		t.Buffer.WriteRune('[')
-	}
-	if node.Negated {
-		t.Buffer.WriteRune('^')
-	}
+		if node.Negated {
+			t.Buffer.WriteRune('^')
+		}
 
-	for _, element := range internalNodes {
-		t.charClassElement(element)
-	}
+		for _, element := range internalNodes {
+			t.charClassElement(element)
+		}
 
-	t.Buffer.WriteRune(']')
+		t.Buffer.WriteRune(']')
+	} else if len(nodesToSplit) == 0 {
+		if node.Negated {
+			t.Buffer.WriteString(`[\x{0}-\x{10FFFF}]`)
+		} else {
+			t.Buffer.WriteString(`[^\x{0}-\x{10FFFF}]`)
+		}
+	}
 	t.Mode = topLevelMode
 	if len(nodesToSplit) > 0 {
-		for _, element := range nodesToSplit {
-			t.Buffer.WriteRune('|')
+		for i, element := range nodesToSplit {
+			if i > 0 || len(internalNodes) > 0 {
+				t.Buffer.WriteRune('|')
+			}
 			t.charClassElement(element)
 		}
 		t.Buffer.WriteRune(')')
